@@ -786,6 +786,9 @@ class MemoryPathIO(AbstractPathIO):
             file_like.seek(0, io.SEEK_SET)
         elif mode in ("wb", "ab", "r+b"):
             node = self.get_node(path)
+            if node is None and mode == "r+b":
+                # like open(..., "r+b") on a filesystem: the file must exist
+                raise FileNotFoundError
             if node is None:
                 parent = self.get_node(path.parent)
                 if parent is None or parent.type != "dir":
